@@ -15,7 +15,10 @@ def _alarm(signum, frame):
     raise _Timeout()
 
 
-_MSG_RE = re.compile(r'^Error on line (\d+)(?:, column (\d+))?: ')
+# the message must AGREE with the attributes (C08); its wording is not prescribed: the first number after the
+# word 'line' is the 1-based line, the first number after 'column' (if any) the 1-based column
+_LINE_RE = re.compile(r'\bline\D{0,3}(\d+)', re.I)
+_COL_RE = re.compile(r'\bcol(?:umn)?\D{0,3}(\d+)', re.I)
 
 
 def read_bytes(data, reader_factory=None, limit_s=10, abstract=True):
@@ -37,10 +40,12 @@ def read_bytes(data, reader_factory=None, limit_s=10, abstract=True):
         end = 'parse'
         line = e.linenum if isinstance(e.linenum, int) else -2
         col = e.column if isinstance(e.column, int) else -1
-        m = _MSG_RE.match(str(e))
-        msgok = bool(m) and int(m.group(1)) == line + 1 and \
-            ((m.group(2) is None and e.column is None) or
-             (m.group(2) is not None and e.column is not None and int(m.group(2)) == e.column + 1))
+        head = str(e).split(': ', 1)[0] if ': ' in str(e) else str(e)      # the positional part, not the quoted input
+        ml = _LINE_RE.search(head) or _LINE_RE.search(str(e))
+        mc = _COL_RE.search(head) or (_COL_RE.search(str(e)) if e.column is not None else None)
+        msgok = bool(ml) and int(ml.group(1)) == line + 1 and \
+            ((mc is None and e.column is None) or
+             (mc is not None and e.column is not None and int(mc.group(1)) == e.column + 1))
     except _Timeout:
         end = 'timeout'
     except Exception as e:           # noqa
